@@ -1019,6 +1019,20 @@ class Interp:
                 return a
             raise AnalysisBroken('unsupported operator call %s at %s' % (name, pos(n)))
         if kind == 'function':
+            if name in ('strlen', 'strcmp', 'strncmp'):
+                vs = [self.expr(a, env) for a in args]
+                strs = [(v[1] if isinstance(v, tuple) and v[0] == 'str' else ''.join(v[1][v[2]:]) if isinstance(v, tuple) and v[0] == 'ptr' else None) for v in vs[:2 if name != 'strlen' else 1]]
+                if all(x is not None for x in strs):
+                    if name == 'strlen':
+                        return const(64, False, len(strs[0]))
+                    n_ = None
+                    if name == 'strncmp':
+                        if not (isinstance(vs[2], IV) and vs[2].concrete()):
+                            raise NeedSplit(None, 'strncmp with a non-concrete length at %s' % pos(n))
+                        n_ = vs[2].lo
+                    a_, b_ = (strs[0][:n_], strs[1][:n_]) if n_ is not None else strs
+                    return const(32, True, (a_ > b_) - (a_ < b_))
+                raise NeedSplit(None, '%s on an abstract string at %s' % (name, pos(n)))
             if name == 'memcpy' and len(args) == 3:
                 src = self.expr(args[1], env)
                 cnt = self.expr(args[2], env)
@@ -1202,6 +1216,20 @@ class Interp:
             if not argvals:
                 return obj
             raise AnalysisBroken('no %d-parameter constructor of %s' % (len(argvals), cls))
+        if len(cands) > 1:
+            # overloads of the same arity: prefer the one whose parameter types fit the kinds of the arguments
+            def fits(c_):
+                for prm, v in zip(c_.params, argvals):
+                    t = qt(prm)
+                    is_str_t = 'string' in t or 'char *' in t
+                    if isinstance(v, tuple) and v and v[0] in ('str', 'cat', 'fmt') and not is_str_t:
+                        return False
+                    if isinstance(v, IV) and is_str_t:
+                        return False
+                    if isinstance(v, Vec) and 'vector' not in t:
+                        return False
+                return True
+            cands = [c_ for c_ in cands if fits(c_)] or cands
         c = cands[0]
         env = {'this': obj, 'locals': {}}
         for prm, v in zip(c.params, argvals):
